@@ -352,6 +352,15 @@ theorem runCode_spec {child i c w0} (hch : ChildOK child i) :
           obtain ⟨h1, h2⟩ := h.exit ht
           simp only [h1, if_true]
           exact ih _ _ _ h2
+      | wenter a => simp only [runCode]; exact ih _ _ _ (h.enter a)
+      | wexit =>
+        simp only [runCode]
+        cases ht : g.toks with
+        | nil => simp only; exact ih _ _ _ h
+        | cons t ts =>
+          obtain ⟨h1, h2⟩ := h.exit ht
+          simp only [h1, if_true]
+          exact ih _ _ _ h2
       | log m => simp only [runCode]; exact ih _ _ _ (h.log m)
       | yield v => simp only [runCode]; exact h.finish rest
       | yieldLast => simp only [runCode]; exact h.finish rest
@@ -375,6 +384,16 @@ theorem runCode_spec {child i c w0} (hch : ChildOK child i) :
         simp only [runCode]
         split
         · split <;> exact ih _ _ _ h
+        · exact ih _ _ _ h
+      | wexit =>
+        simp only [runCode]
+        split
+        · cases ht : g.toks with
+          | nil => simp only; exact ih _ _ _ h
+          | cons t ts =>
+            obtain ⟨h1, h2⟩ := h.exit ht
+            simp only [h1, if_true]
+            exact ih _ _ _ h2
         · exact ih _ _ _ h
       | _ => simp only [runCode]; exact ih _ _ _ h
     | skip d =>
